@@ -306,3 +306,7 @@ Definition decode (b : bytes) : N * res dparam :=
     | Panic w => (c_meta, Panic w)
     | OOB => (c_meta, OOB)
     end.
+
+(* DecodeFromBytes(ctx, bs): Decode over bufiox.NewBytesReader(bs), a reader that delivers
+   exactly [bs]; the bytes consumed are not reported. *)
+Definition decode_from_bytes (b : bytes) : res dparam := snd (decode b).
